@@ -50,7 +50,8 @@ try:
         res[c] = {"rc": rc, "mechanisms": mech[:4], "inconclusive": [ln[:200] for ln in o.split("\n") if ln.startswith("INCONCLUSIVE")][:2], "s": round(time.time() - t0)}
     out["checks"] = res
 finally:
-    subprocess.run(["git", "-C", wt, "checkout", "-q", "--", "."], check=True)
+    # reset, not checkout: a 3-way apply stages its result
+    subprocess.run(["git", "-C", wt, "reset", "-q", "--hard"], check=True)
 rc, o = run(["/venv/bin/python", demo], env={"PYTHONPATH": os.path.join(wt, "blackbird_python")}, timeout=600)
 out["demo_without_change_rc"] = rc
 print(json.dumps(out))
